@@ -384,6 +384,11 @@ class LogCapture(logging.Handler):
             msg = record.getMessage()
         except Exception:
             msg = str(record.msg)
+        if record.exc_info and record.exc_info[2] is not None:
+            import traceback as _tb
+
+            fr = _tb.extract_tb(record.exc_info[2])
+            msg += " @ " + " < ".join(f"{os.path.basename(f.filename)}:{f.lineno}:{f.name}" for f in reversed(fr[-4:]))
         self.rig.log_records.append((record.name, record.levelname, msg, self.rig.loop.time() if self.rig.loop else 0))
         if "command timed out" in msg:
             self.rig.watchdog_hits.append(msg)
